@@ -530,3 +530,15 @@ pub fn color_sweep(j: &Value) -> Result<Value, String> {
         "distinct_argb": distinct.len(), "argb_len": argb.len(),
         "argb": if want { Value::String(hex(&argb)) } else { Value::Null }}))
 }
+
+/// Dump the built-in signature table of a language of a game (input-domain knowledge for the generators).
+pub fn core_sigs(j: &Value) -> Result<Value, String> {
+    let game = crate::ops_cli::parse_game(s(j, "game").ok_or("no game")?)?;
+    let key = lang_key(s(j, "language").ok_or("no language")?);
+    let mut scope = new_truth_scope();
+    let mut truth = scope.truth();
+    let m = truth::verif_hooks::core_mapfile(truth.ctx().emitter, game, key);
+    let pairs = |v: &Vec<(i32, truth::Sp<String>)>| Value::Array(v.iter().map(|(k, s)| json!([k, s.value])).collect());
+    Ok(json!({"ins_signatures": pairs(&m.ins_signatures), "ins_intrinsics": pairs(&m.ins_intrinsics), "gvar_types": pairs(&m.gvar_types),
+              "timeline_ins_signatures": pairs(&m.timeline_ins_signatures), "difficulty_flags": pairs(&m.difficulty_flags)}))
+}
